@@ -18,10 +18,12 @@
 //
 // Deliberately not asserted (unspecified): a :required name that only the includer's scope
 // provides; partial output of a failed render; the wording of errors beyond "contains a missing
-// name"; the Go type of values read from YAML front-matter; static values starting with { or [
-// (documented JSON auto-decoding), containers / whole floats inside "{{ }}" attribute
-// interpolation and bound paths that do not resolve (never generated; a replayed case containing
-// them is only checked for shorthand == explicit).
+// name"; the Go type of values read from YAML front-matter; interpolated or bound strings that
+// are whole JSON documents (decoding is documented for static values: those ARE asserted to
+// arrive decoded, every other string starting with { or [ must arrive verbatim as a string);
+// containers / whole floats inside "{{ }}" attribute interpolation, a literal { directly before
+// {{, surrounding whitespace of prop values and bound paths that do not resolve (never generated;
+// a replayed case containing them is only checked for shorthand == explicit).
 package c05
 
 import (
@@ -29,6 +31,7 @@ import (
 	"context"
 	"encoding/json"
 	"fmt"
+	"html"
 	"sort"
 	"strconv"
 	"strings"
@@ -156,9 +159,9 @@ func block(id string, names []string) string {
 func propAttr(p Prop) string {
 	switch p.Mode {
 	case "static":
-		return fmt.Sprintf(`%s="%s"`, p.Name, p.Text)
+		return fmt.Sprintf(`%s="%s"`, p.Name, html.EscapeString(p.Text))
 	case "interp":
-		return fmt.Sprintf(`%s="%s{{ %s }}%s"`, p.Name, p.Text, p.Path, p.Post)
+		return fmt.Sprintf(`%s="%s{{ %s }}%s"`, p.Name, html.EscapeString(p.Text), p.Path, html.EscapeString(p.Post))
 	case "bind":
 		return fmt.Sprintf(`:%s="%s"`, p.Name, p.Path)
 	case "vbind":
@@ -358,6 +361,12 @@ type stats struct {
 	falsyBound, nestedInc             int
 	wrap, nowrap, leakWatch, passThru int
 	omitted                           int
+	jsonDocStatic                     int
+	bracketText                       map[string]int // string props starting with { or [ that are not JSON documents, per mode
+}
+
+func newStats() stats {
+	return stats{modes: map[string]int{}, boundKinds: map[string]int{}, bracketText: map[string]int{}}
 }
 
 type result struct {
@@ -398,6 +407,18 @@ func kindOf(v any) string {
 	return fmt.Sprintf("%T", v)
 }
 
+// looksJSON: the value begins with { or [ (the trigger of the documented JSON auto-decoding).
+func looksJSON(s string) bool { return strings.HasPrefix(s, "{") || strings.HasPrefix(s, "[") }
+
+// jsonDoc decodes s if the whole of s is one JSON document ("[1] Introduction" is not).
+func jsonDoc(s string) (any, bool) {
+	var out any
+	if err := json.Unmarshal([]byte(s), &out); err != nil {
+		return nil, false
+	}
+	return out, true
+}
+
 // evalProps evaluates an include's attributes in the includer scope.
 func evalProps(props []Prop, sc scope, r *result) map[string]mv {
 	out := map[string]mv{}
@@ -407,10 +428,20 @@ func evalProps(props []Prop, sc scope, r *result) map[string]mv {
 		}
 		switch p.Mode {
 		case "static":
-			if strings.HasPrefix(strings.TrimSpace(p.Text), "{") || strings.HasPrefix(strings.TrimSpace(p.Text), "[") {
-				r.vague = "static prop value starting with { or [ (documented JSON auto-decoding, not asserted)"
+			if p.Text != strings.TrimSpace(p.Text) {
+				r.vague = "static prop value with surrounding whitespace"
 			}
-			out[p.Name] = mv{strings.TrimSpace(p.Text), true}
+			if looksJSON(p.Text) {
+				// documented mechanism (docs: `data="{...}"` or `[...]`): a static value that IS a
+				// JSON document arrives decoded; one that merely starts with { or [ stays text
+				if dec, isDoc := jsonDoc(p.Text); isDoc {
+					r.st.jsonDocStatic++
+					out[p.Name] = mv{dec, true}
+					break
+				}
+				r.st.bracketText["static"]++
+			}
+			out[p.Name] = mv{p.Text, true}
 		case "interp":
 			v, ok := sc.resolve(p.Path)
 			if !ok {
@@ -422,9 +453,18 @@ func evalProps(props []Prop, sc scope, r *result) map[string]mv {
 				r.vague = "interpolated prop renders a container or a whole float"
 				continue
 			}
-			full := strings.TrimSpace(p.Text + s + p.Post)
-			if strings.HasPrefix(full, "{") || strings.HasPrefix(full, "[") {
-				r.vague = "prop value starting with { or ["
+			full := p.Text + s + p.Post
+			if full != strings.TrimSpace(full) {
+				r.vague = "interpolated prop value with surrounding whitespace"
+			}
+			if strings.HasSuffix(p.Text, "{") {
+				r.vague = "literal { directly before {{ (ambiguous template syntax)"
+			}
+			if looksJSON(full) {
+				if _, isDoc := jsonDoc(full); isDoc {
+					r.vague = "interpolated prop value that is a JSON document (decoding documented for static values only, not asserted)"
+				}
+				r.st.bracketText["interp"]++
 			}
 			out[p.Name] = mv{full, true}
 		case "bind", "vbind":
@@ -435,6 +475,12 @@ func evalProps(props []Prop, sc scope, r *result) map[string]mv {
 			}
 			if falsy(v.v) {
 				r.st.falsyBound++
+			}
+			if str, isStr := v.v.(string); isStr && looksJSON(str) {
+				if _, isDoc := jsonDoc(str); isDoc {
+					r.vague = "bound string that is a JSON document (decoding documented for static values only, not asserted)"
+				}
+				r.st.bracketText["bound"]++
 			}
 			r.st.boundKinds[kindOf(v.v)]++
 			if p.Path == p.Name {
@@ -450,7 +496,7 @@ func evalProps(props []Prop, sc scope, r *result) map[string]mv {
 }
 
 func model(c Case) result {
-	r := result{st: stats{modes: map[string]int{}, boundKinds: map[string]int{}}}
+	r := result{st: newStats()}
 	root := scope{}
 	for k, v := range c.Data {
 		root[k] = mv{v.Go(), true}
@@ -747,6 +793,10 @@ func classify(c Case) (bool, []string) {
 		add(n > 0, "bound-"+k)
 	}
 	add(s.passThru > 0, "bound-pass-through")
+	for _, md := range []string{"static", "interp", "bound"} {
+		add(s.bracketText[md] > 0, "bracket-text-not-json-"+md)
+	}
+	add(s.jsonDocStatic > 0, "static-json-document")
 	add(s.falsyBound > 0, "bound-falsy")
 	add(s.collPropIncluder > 0, "collide-prop-includer")
 	add(s.collPropFM > 0, "collide-prop-frontmatter")
@@ -806,7 +856,12 @@ func (g *valGen) next(t *rapid.T, label string, allowFalsy, scalarOnly bool) val
 	}
 	for {
 		switch rapid.IntRange(0, hi).Draw(t, label) {
-		case 0, 1:
+		case 0:
+			return vals.Str(fmt.Sprintf("s%d", k))
+		case 1:
+			if k%3 == 0 { // includer variables / front-matter values that merely start with [ or {
+				return vals.Str(bracketTexts[k%len(bracketTexts)])
+			}
 			return vals.Str(fmt.Sprintf("s%d", k))
 		case 2:
 			return vals.Int(k)
@@ -852,8 +907,22 @@ func (g *valGen) next(t *rapid.T, label string, allowFalsy, scalarOnly bool) val
 	}
 }
 
-var bindSources = []string{"d0", "d1", "d2", "d3", "dm", "dm.k", "dm.j"}
-var interpSources = []string{"d2", "d3", "dm.k"}
+var bindSources = []string{"d0", "d1", "d2", "d3", "dm", "dm.k", "dm.j", "db", "db"}
+var interpSources = []string{"d2", "d3", "dm.k", "db"}
+
+// bracketTexts start with { or [ but are not JSON documents: with a complete JSON value as a
+// prefix followed by more text, and without. As props they must arrive verbatim, as strings.
+var bracketTexts = []string{
+	"[1] Introduction", "{} is empty", `["a"] b`, `{"k":1}x`, "[1,2]]", `{"k":"v"} {"k":"w"}`, "[]x", "{}{}",
+	"[draft] x", "{curly", "[", "{", "[a]b", "{x}", "[1,2", `{"k":}`,
+}
+
+// jsonDocs are whole JSON documents: as static props they arrive decoded (documented).
+var jsonDocs = []string{"[1,2]", `{"k":"v"}`, "[]", "{}", `[1,"a",{"z":[true]}]`, `{"n":{"m":[1.5,"x"]},"b":false}`, `["s"]`}
+
+// interpolation prefixes that make the whole value start with [ or {; the trailing letter keeps the
+// value from ever being a JSON document, whatever is interpolated
+var bracketPrefixes = []string{"[1] n", "{} c", "[w ", "{c", `{"k":1}x`, "[d"}
 
 func genProps(t *rapid.T, g *valGen, names []string, label string) []Prop {
 	var out []Prop
@@ -870,11 +939,20 @@ func genProps(t *rapid.T, g *valGen, names []string, label string) []Prop {
 		case m < 7: // omitted
 		case m < 10:
 			g.n++
-			txt := rapid.SampledFrom([]string{fmt.Sprintf("t%d", 10+g.n), fmt.Sprintf("t%d", 10+g.n), "", "0", "false", "true", "12", "1.5"}).Draw(t, l+".text")
+			txt := rapid.SampledFrom([]string{fmt.Sprintf("t%d", 10+g.n), fmt.Sprintf("t%d", 10+g.n), "", "0", "false", "true", "12", "1.5", "[", "[", "{"}).Draw(t, l+".text")
+			switch txt {
+			case "[": // text that merely starts with [ or {
+				txt = rapid.SampledFrom(bracketTexts).Draw(t, l+".bracket")
+			case "{": // a JSON document
+				txt = rapid.SampledFrom(jsonDocs).Draw(t, l+".jsondoc")
+			}
 			out = append(out, Prop{Name: n, Mode: "static", Text: txt})
 		case m < 13:
 			g.n++
-			pre := rapid.SampledFrom([]string{"", fmt.Sprintf("p%d", 10+g.n)}).Draw(t, l+".pre")
+			pre := rapid.SampledFrom([]string{"", "", fmt.Sprintf("p%d", 10+g.n), fmt.Sprintf("p%d", 10+g.n), "["}).Draw(t, l+".pre")
+			if pre == "[" {
+				pre = rapid.SampledFrom(bracketPrefixes).Draw(t, l+".bracketpre")
+			}
 			post := rapid.SampledFrom([]string{"", "q"}).Draw(t, l+".post")
 			out = append(out, Prop{Name: n, Mode: "interp", Text: pre, Path: src(interpSources), Post: post})
 		case m < 17:
@@ -935,6 +1013,19 @@ func repair(c *Case, avoidFalsy bool) (status []map[string]*nameStatus, excluded
 						}
 						if !ok {
 							p.Path = "d3"
+						} else if strings.HasSuffix(p.Text, "{") {
+							p.Text += "c" // "{{{" is ambiguous template syntax
+						}
+						if v, ok := sc.resolve(p.Path); ok {
+							if txt, ok := scalarText(v.v); ok {
+								full := p.Text + txt + p.Post
+								if full != strings.TrimSpace(full) {
+									p.Post = "q" // surrounding whitespace of a prop value: not asserted
+								}
+								if _, isDoc := jsonDoc(p.Text + txt + p.Post); isDoc && looksJSON(full) {
+									p.Text = "p" + p.Text // a JSON document: decoding only documented for static values
+								}
+							}
 						}
 					case "bind", "vbind":
 						v, ok := sc.resolve(p.Path)
@@ -943,6 +1034,10 @@ func repair(c *Case, avoidFalsy bool) (status []map[string]*nameStatus, excluded
 						} else if avoidFalsy && falsy(v.v) {
 							p.Path = "d0"
 							excluded++
+						} else if str, isStr := v.v.(string); isStr && looksJSON(str) {
+							if _, isDoc := jsonDoc(str); isDoc {
+								p.Path = "d0" // bound string that is a JSON document: not asserted
+							}
 						}
 					}
 				}
@@ -952,7 +1047,7 @@ func repair(c *Case, avoidFalsy bool) (status []map[string]*nameStatus, excluded
 			for _, inc := range incs {
 				cp := c.Comps[inc.Comp]
 				var r result
-				r.st = stats{modes: map[string]int{}, boundKinds: map[string]int{}}
+				r.st = newStats()
 				props := evalProps(inc.Props, sc, &r)
 				child := sc.with()
 				for k, v := range props {
@@ -1022,6 +1117,7 @@ func genCase(rec *ev.Rec, known *kf.File) func(t *rapid.T) Case {
 		c.Data["d1"] = g.next(t, "d1", true, false)
 		c.Data["d2"] = g.next(t, "d2", true, true)
 		c.Data["d3"] = g.next(t, "d3", false, true)
+		c.Data["db"] = vals.Str(rapid.SampledFrom(bracketTexts).Draw(t, "db"))
 		c.Data["dm"] = vals.Map(map[string]vals.V{"k": g.next(t, "dm.k", false, true), "j": g.next(t, "dm.j", true, false)})
 
 		n := rapid.IntRange(1, 5).Draw(t, "comps")
@@ -1319,11 +1415,14 @@ func enumTypes(includeFalsy bool, yield func(Case) bool) (n, skipped int) {
 		vals.Map(map[string]vals.V{"a": vals.Int(1), "b": vals.Str("z")}), vals.Map(map[string]vals.V{}),
 		vals.Map(map[string]vals.V{"in": vals.Map(map[string]vals.V{"x": vals.List("[]any", vals.Bool(false))})}),
 	}
+	for _, b := range bracketTexts {
+		kinds = append(kinds, vals.Str(b))
+	}
 	fal := []vals.V{vals.Int(0), vals.Bool(false), vals.Str(""), vals.Str("false"), vals.Num("float64", "0")}
 	all := append(append([]vals.V(nil), kinds...), fal...)
 	for vi, v := range all {
 		isFalsy := vi >= len(kinds)
-		for _, mode := range []string{"static", "interp", "bind", "vbind"} {
+		for _, mode := range []string{"static", "interp", "interp-split", "bind", "vbind"} {
 			for coll := 0; coll < 4; coll++ { // bit0: includer has va1, bit1: component front-matter has vb2 (not the prop)
 				if (mode == "bind" || mode == "vbind") && isFalsy && !includeFalsy {
 					skipped++
@@ -1349,12 +1448,37 @@ func enumTypes(includeFalsy bool, yield func(Case) bool) (n, skipped int) {
 					if _, ok := scalarText(v.Go()); !ok {
 						continue
 					}
+				case "interp-split": // literal head + interpolated tail, for the texts starting with [ or {
+					s, isStr := v.Go().(string)
+					if !isStr || !looksJSON(s) || len(s) < 3 {
+						continue
+					}
+					c.Data["tail"] = vals.Str(s[2:])
+					p = Prop{Name: "va1", Mode: "interp", Text: s[:2], Path: "tail"}
 				}
 				c.Page = []Inc{{Comp: 0, Props: []Prop{p}}}
 				n++
 				if !yield(c) {
 					return n, skipped
 				}
+			}
+		}
+	}
+	// whole JSON documents as static props: documented to arrive decoded
+	for _, doc := range jsonDocs {
+		for coll := 0; coll < 4; coll++ {
+			c := Case{Names: []string{"va1", "vb2"}, Print: []string{"d0"}, Data: fixedData(), Comps: []Comp{{Name: "PanelItemD", Wrap: coll&2 != 0, Req: []Req{{":required", "va1"}}}}, NestedShort: true}
+			if coll&1 != 0 {
+				c.Data["va1"] = vals.Str("incl")
+			}
+			props := []Prop{{Name: "va1", Mode: "static", Text: doc}}
+			if coll&2 != 0 { // a second prop of the other kind next to it
+				props = append(props, Prop{Name: "vb2", Mode: "static", Text: bracketTexts[(coll+len(doc))%len(bracketTexts)]})
+			}
+			c.Page = []Inc{{Comp: 0, Props: props}}
+			n++
+			if !yield(c) {
+				return n, skipped
 			}
 		}
 	}
@@ -1408,7 +1532,7 @@ func TestProp(t *testing.T) {
 		}
 	}
 	if full && !rec.Failed() {
-		rec.Exhaustive(fmt.Sprintf("flat: %d names x {5 prop modes x front-matter x includer x required} (%d); twice: same component twice, 5^4 prop modes x front-matter x includer (%d); chain: depth-3 chain, one name, 10 states per level x includer x leaf required (%d); types: 17 values x 4 modes x 4 collisions (%d)", run.Pick(2, 3), n1, n2, n3, n4))
+		rec.Exhaustive(fmt.Sprintf("flat: %d names x {5 prop modes x front-matter x includer x required} (%d); twice: same component twice, 5^4 prop modes x front-matter x includer (%d); chain: depth-3 chain, one name, 10 states per level x includer x leaf required (%d); types: 33 values (16 of them texts starting with [ or { that are not JSON) x 5 modes x 4 collisions + 7 JSON documents as static props (%d)", run.Pick(2, 3), n1, n2, n3, n4))
 	}
 
 	run.Rapid(t, rec, "random", genCase(rec, known), classify, check)
